@@ -247,4 +247,28 @@ Section Blocks.
     { pose proof good_spacelike. pose proof (good_for_variable E HE). pose proof (good_loop_expression E HE). good_auto. }
     destruct (g_sfx G1 _ _ _ E1) as [c1 Hc1]. exists (c1 ++ 123%N :: body). rewrite Hc1, Hb. now rewrite <- app_assoc.
   Qed.
+  (* a match ends with the `}` that closes its arm list: what follows is left untouched *)
+  Lemma match_branch_ends te i a r : good te -> match_branch E te i = Ok a r -> ends_with_brace i r.
+  Proof.
+    intros Gte. unfold match_branch, context, pmap.
+    match goal with |- match match ?X with _ => _ end with _ => _ end = _ -> _ => destruct X as [[ex arms] r0| |] eqn:EX; try discriminate end.
+    intros [= <- <-]. unfold pair at 1, bind in EX.
+    destruct (delimited spacelike (expression E) spacelike i) as [ex1 r1| |] eqn:E1; try discriminate.
+    unfold pmap at 1 in EX.
+    match type of EX with match ?X with _ => _ end = _ => destruct X as [arms2 r2| |] eqn:E2; try discriminate end.
+    assert (r2 = r0) by (inversion EX; reflexivity). subst r2.
+    assert (G1 : good (delimited spacelike (expression E) spacelike)) by (pose proof good_spacelike; pose proof (good_expression E HE); good_auto).
+    destruct (g_sfx G1 _ _ _ E1) as [c1 Hc1].
+    unfold preceded at 1, bind in E2. destruct (char 123 r1) as [c0 r3| |] eqn:E3; try discriminate.
+    destruct (char_inv _ _ _ _ E3) as [_ H3]. unfold pmap in E2.
+    match type of E2 with match ?X with _ => _ end = _ => destruct X as [[l x] r4| |] eqn:E4; try discriminate end.
+    assert (r4 = r0) by (inversion E2; reflexivity). subst r4.
+    match type of E4 with many_till ?F ?G r3 = _ => assert (GF : good F) end.
+    { pose proof good_spacelike. pose proof (good_expression E HE).
+      assert (good (template_block te)) by (unfold template_block; good_auto). good_auto. }
+    destruct (many_till_end _ _ (g_sfx GF) _ _ _ _ E4) as [c [mid [Hc Hg]]].
+    unfold preceded, bind in Hg. destruct (spacelike mid) as [u r5| |] eqn:E5; try discriminate.
+    destruct (g_sfx good_spacelike _ _ _ E5) as [c5 Hc5]. destruct (char_inv _ _ _ _ Hg) as [_ H6].
+    exists (c1 ++ 123%N :: c ++ c5). rewrite Hc1, H3, Hc, Hc5, H6. rewrite <- !app_assoc. cbn [app]. now rewrite <- !app_assoc.
+  Qed.
 End Blocks.
